@@ -69,4 +69,10 @@ theorem C02_source_facts :
     (Gen.connWriteErrorCompletesOnlyRegistered && Gen.connReadDropsFramesAfterShutdown && Gen.connSendRefusesUnderLock &&
      Gen.connSetsShutdownInsideSweep) = true := by decide
 
+/-- "Signalled exactly once" is about receives as much as about sends: the library never takes a
+    signal back. The only code that empties a Done channel (ResetDone) is reached from PutCall, which
+    recycles a channel the library itself allocated for a blocking call that has returned — never a
+    channel a caller supplied to Go or RoundTrip (read from conn.go on every run). -/
+theorem C02_signals_are_never_taken_back : Gen.connResetsDoneOnlyWhenRecycling = true := by decide
+
 end RpcVerif.Props
